@@ -56,7 +56,7 @@ def _interp(repo, modname, scalar):
 
 @rule(
     "GEN-INTEGRAL",
-    ["C06", "C05", "C18", "C20"],
+    ["C06", "C05", "C18", "C20", "C09"],
     "the C and numba integral generators, interpreted for every scalar type on sample IntegralIR records, emit a "
     "descriptor named <integral>_<cell type> whose only non-NULL kernel slot is the one of the scalar type and points "
     "to the kernel defined in the same text with scalar/real parameter types; enabled_coefficients, "
@@ -126,7 +126,8 @@ def gen_integral(repo, res):
                     slots = {t: d.get(f"tabulate_tensor_{t}", []) for t in ("float32", "float64", "complex64", "complex128")}
                     want = {t: [f"tabulate_tensor_{obj}" if t == scalar else "NULL"] for t in slots}
                     if slots != want:
-                        fail(f"kernel slots are {slots}; exactly the slot of the scalar type must hold tabulate_tensor_{obj}, the others NULL")
+                        res.fail(key, f"{be} `{label}` [{scalar}]: kernel slots are {slots}; exactly the slot of the scalar type must hold tabulate_tensor_{obj}, the others NULL",
+                                 loc, props=props + ("C09", "C20"))
                     fm = re.search(rf"\bvoid\s+tabulate_tensor_{re.escape(obj)}\s*\(([^)]*)\)", text)
                     if not fm:
                         fail(f"the kernel function tabulate_tensor_{obj} is not defined in the emitted source")
@@ -136,7 +137,8 @@ def gen_integral(repo, res):
                         want_p = [f"{st}* restrict A", f"const {st}* restrict w", f"const {st}* restrict c", f"const {rt}* restrict coordinate_dofs",
                                   "const int* restrict entity_local_index", "const uint8_t* restrict quadrature_permutation", "void* custom_data"]
                         if params != want_p:
-                            fail(f"kernel parameters are {params}; the ufcx_tabulate_tensor_{scalar} contract is {want_p}")
+                            res.fail(key, f"{be} `{label}` [{scalar}]: kernel parameters are {params}; the ufcx_tabulate_tensor_{scalar} contract is {want_p}", loc,
+                                     props=props + ("C09", "C20"))
                     ec = d.get("enabled_coefficients", [])
                     if not s["enabled"]:
                         if ec != ["NULL"]:
@@ -179,6 +181,201 @@ def gen_integral(repo, res):
                         if not re.search(rf"(?m)^\s+{arr}\s*=\s*numba\.carray\(\s*_{arr}\s*,\s*\(?\s*{n}\s*,?\s*\)?\s*\)", text):
                             fail(f"the kernel does not view argument _{arr} as an array of the extent tensor_sizes gives it ({n})")
                             break
+
+
+@rule(
+    "GEN-EXPRESSION-DESC",
+    ["C04", "C05", "C09", "C18", "C20"],
+    "the C and numba expression generators, interpreted for every scalar type on sample ExpressionIR records (two coefficients "
+    "of an original three, one constant, 3 points in 2D, value shape (2,3), one argument; and a scalar functional expression without "
+    "coefficients), emit a descriptor <name> whose only kernel slot is the one of the scalar type and points to a kernel defined in "
+    "the same text with scalar/real parameter types; counts, positions, names, points (row-major, exact), value shape, rank, "
+    "coordinate element hash carry the IR values in both backends; the alias is declared and points to the descriptor",
+    min_instances=16,
+)
+def gen_expression_desc(repo, res):
+    from ..npmodel import NDArr
+
+    c0, c1 = Node("Coefficient", name="f"), Node("Coefficient", name="g")
+    samples = {
+        "two coefficients, one constant, 3 points in 2D, shape (2,3), one argument":
+            dict(name="expression_abc", alias="expression_p_flux", shape=(2, 3), tshape=[4], numbering={c0: 0, c1: 1}, positions=[0, 2], cnames=["f", "g"], knames=["kappa"],
+                 hash=777000777, points=NDArr([[0.25, 0.5], [0.1, 0.7], [1.0 / 3.0, 0.125]], (3, 2))),
+        "scalar, no coefficients or constants, one point in 3D, no argument":
+            dict(name="expression_q", alias="expression_p_0", shape=(), tshape=[], numbering={}, positions=[], cnames=[], knames=[], hash=5,
+                 points=NDArr([[0.5, 0.25, 0.125]], (1, 3))),
+    }
+    for be in ("C", "numba"):
+        modname = f"ffcx.codegeneration.{be}.expression"
+        mod = repo.mod(modname)
+        g = mod.func("generator")
+        res.functions.add(g.key)
+        loc = mod.line(g.node)
+        props = ("C04", "C20") if be == "C" else ("C18", "C20")
+        for label, s in samples.items():
+            for scalar in ("float32", "float64", "complex64", "complex128"):
+                key = f"{g.key}:{label}:{scalar}"
+                res.ob(key)
+                rule_ = Node("QuadratureRule", points=s["points"], id=_PyCall(lambda: "r0"))
+                ir = Node("ExpressionIR", original_coefficient_positions=list(s["positions"]), coefficient_names=list(s["cnames"]), constant_names=list(s["knames"]),
+                          name_from_uflfile=s["alias"],
+                          expression=Node("CommonExpressionIR", integral_type="expression", entity_type="cell", name=s["name"], shape=tuple(s["shape"]), tensor_shape=list(s["tshape"]),
+                                          coefficient_numbering=dict(s["numbering"]), coefficient_offsets={c_: 3 * i for c_, i in s["numbering"].items()},
+                                          original_constant_offsets={}, coordinate_element_hash=s["hash"], needs_facet_permutations=False,
+                                          integrand={("CellType.triangle", rule_): {"factorization": Node("ExpressionGraph"), "modified_arguments": [], "block_contributions": {}}},
+                                          unique_tables={}, unique_table_types={}, number_coordinate_dofs=3))
+                it = _interp(repo, modname, scalar)
+                it.overrides["ExpressionGenerator"] = _PyCall(lambda ir_, backend: Node("ExpressionGenerator", generate=_PyCall(lambda: Node("Parts"))))
+                try:
+                    out = it.call_f(g, [ir, {"scalar_type": scalar}])
+                except Raised as e:
+                    res.fail(key, f"{be} expression generator raises ({e.what}) for scalar type {scalar} on `{label}`", loc, props=props)
+                    continue
+                if not isinstance(out, tuple) or not all(isinstance(t, str) for t in out):
+                    raise AnalysisError(f"{be} expression generator did not return a tuple of texts")
+                text = out[-1]
+                obj = s["name"]
+                pts = [v for row in s["points"].tolist() for v in row]
+                fail = lambda msg: res.fail(key, f"{be} `{label}` [{scalar}]: {msg}", loc, props=props)  # noqa: E731
+                if MARK not in text:
+                    fail("the formatted kernel body is not part of the emitted text")
+
+                def floats(txt):
+                    try:
+                        return [float(x) for x in txt.split(",") if x.strip()]
+                    except ValueError:
+                        return None
+
+                def strings(txt):
+                    return re.findall(r'"([^"]*)"', txt)
+
+                if be == "C":
+                    if not re.search(rf"\bextern\s+ufcx_expression\s+{re.escape(obj)}\s*;", out[0]) or not re.search(rf"\bextern\s+ufcx_expression\s*\*\s*{re.escape(s['alias'])}\s*;", out[0]):
+                        fail(f"the declaration does not announce `ufcx_expression {obj}` and its alias `ufcx_expression* {s['alias']}`")
+                    m = re.search(rf"\bufcx_expression\s+{re.escape(obj)}\s*=\s*\{{(.*?)\n\}};", text, re.S)
+                    if not m:
+                        fail(f"no definition of `ufcx_expression {obj}`")
+                        continue
+                    d = {}
+                    for a, v in re.findall(r"\.(\w+)\s*=\s*([^,\n]+)", m.group(1)):
+                        d.setdefault(a, []).append(v.strip())
+                    slots = {a: v for a, v in d.items() if a.startswith("tabulate_tensor_")}
+                    if slots != {f"tabulate_tensor_{scalar}": [f"tabulate_tensor_{obj}"]}:
+                        res.fail(key, f"{be} `{label}` [{scalar}]: kernel slots are {slots}; exactly .tabulate_tensor_{scalar} must hold tabulate_tensor_{obj}", loc, props=props + ("C09",))
+                    fm = re.search(rf"\bvoid\s+tabulate_tensor_{re.escape(obj)}\s*\(([^)]*)\)", text)
+                    if not fm:
+                        fail(f"the kernel function tabulate_tensor_{obj} is not defined in the emitted source")
+                    else:
+                        params = [re.sub(r"\s+", " ", p_).strip() for p_ in fm.group(1).split(",")]
+                        st, rt = CTYPE[scalar], CTYPE[REALOF[scalar]]
+                        want_p = [f"{st}* restrict A", f"const {st}* restrict w", f"const {st}* restrict c", f"const {rt}* restrict coordinate_dofs",
+                                  "const int* restrict entity_local_index", "const uint8_t* restrict quadrature_permutation", "void* custom_data"]
+                        if params != want_p:
+                            res.fail(key, f"{be} `{label}` [{scalar}]: kernel parameters are {params}; the ufcx_tabulate_tensor_{scalar} contract is {want_p}", loc, props=props + ("C09",))
+                    scal = {k_: d.get(k_) for k_ in ("num_coefficients", "num_constants", "num_points", "entity_dimension", "num_components", "rank", "coordinate_element_hash")}
+                    want_s = {"num_coefficients": [str(len(s["numbering"]))], "num_constants": [str(len(s["knames"]))], "num_points": [str(s["points"].shape[0])],
+                              "entity_dimension": [str(s["points"].shape[1])], "num_components": [str(len(s["shape"]))], "rank": [str(len(s["tshape"]))],
+                              "coordinate_element_hash": [f"UINT64_C({s['hash']})"]}
+                    if scal != want_s:
+                        bad = {k_: (scal[k_], want_s[k_]) for k_ in scal if scal[k_] != want_s[k_]}
+                        fail("descriptor fields differ from the IR (field: emitted, expected): " + "; ".join(f"{k_}: {a_}, {b_}" for k_, (a_, b_) in bad.items()))
+
+                    def array(field, ctype_re):
+                        nm = d.get(field, [])
+                        if len(nm) != 1:
+                            return None, None
+                        if nm[0] == "NULL":
+                            return "NULL", None
+                        am = re.search(rf"{ctype_re}\s+{re.escape(nm[0])}\s*\[(\d+)\]\s*=\s*\{{([^}}]*)\}}", text)
+                        return (int(am.group(1)), am.group(2)) if am else (None, None)
+
+                    n_, body_ = array("points", r"\bdouble")
+                    if n_ != len(pts) or floats(body_ or "") != pts:
+                        fail(f"points array is [{n_}] {{{(body_ or '')[:80]}}}; the IR's points, flattened row-major, are {pts}")
+                    for field, ctype_re, want_l, conv in (("value_shape", r"\bint", list(s["shape"]), lambda t: [int(x) for x in t.split(",") if x.strip()]),
+                                                          ("original_coefficient_positions", r"\bint", list(s["positions"]), lambda t: [int(x) for x in t.split(",") if x.strip()]),
+                                                          ("coefficient_names", r"\bconst\s+char\s*\*", list(s["cnames"]), strings),
+                                                          ("constant_names", r"\bconst\s+char\s*\*", list(s["knames"]), strings)):
+                        n_, body_ = array(field, ctype_re)
+                        if not want_l:
+                            if n_ != "NULL":
+                                fail(f"{field} = {d.get(field)} for an empty list (expected NULL)")
+                            continue
+                        try:
+                            got_l = conv(body_) if body_ is not None else None
+                        except ValueError:
+                            got_l = None
+                        if n_ != len(want_l) or got_l != want_l:
+                            res.fail(key, f"{be} `{label}` [{scalar}]: {field} names an array [{n_}] {{{body_}}}; the IR says {want_l}", loc,
+                                     props=props + (("C05",) if field != "value_shape" else ()))
+                    if not re.search(rf"\bufcx_expression\s*\*\s*{re.escape(s['alias'])}\s*=\s*&\s*{re.escape(obj)}\s*;", text):
+                        fail(f"the alias `{s['alias']}` is not defined as a pointer to {obj}")
+                    unknown = sorted(set(d) - set(want_s) - {"points", "value_shape", "original_coefficient_positions", "coefficient_names", "constant_names"} - set(slots))
+                    if unknown:
+                        fail(f"initialises unknown field(s) {unknown}")
+                else:
+                    m = re.search(rf"(?m)^class\s+{re.escape(obj)}\b[^\n]*:\n((?:[ \t]+[^\n]*\n|\n)+)", text)
+                    if not m:
+                        fail(f"no class `{obj}`")
+                        continue
+                    attrs = dict(re.findall(r"(?m)^\s+(\w+)\s*=\s*(.+?)\s*$", m.group(1)))
+                    if not re.search(rf"(?m)^def\s+tabulate_tensor_{re.escape(obj)}\s*\(", text) or attrs.get("tabulate_tensor") != f"tabulate_tensor_{obj}":
+                        fail(f"tabulate_tensor = {attrs.get('tabulate_tensor')}; must be the function tabulate_tensor_{obj} defined in the same text")
+                    want_a = {"num_coefficients": str(len(s["numbering"])), "num_constants": str(len(s["knames"])), "num_points": str(s["points"].shape[0]),
+                              "entity_dimension": str(s["points"].shape[1]), "num_components": str(len(s["shape"])), "rank": str(len(s["tshape"])),
+                              "coordinate_element_hash": str(s["hash"])}
+                    bad = {k_: (attrs.get(k_), v_) for k_, v_ in want_a.items() if attrs.get(k_) != v_}
+                    if bad:
+                        fail("class attributes differ from the IR (attribute: emitted, expected): " + "; ".join(f"{k_}: {a_}, {b_}" for k_, (a_, b_) in bad.items()))
+                    if floats(attrs.get("points", "?").strip("[]")) != pts:
+                        fail(f"points = {attrs.get('points')}; the IR's points, flattened row-major, are {pts}")
+                    for field, want_l, conv in (("value_shape", list(s["shape"]), lambda t: [int(x) for x in t.strip("[]").split(",") if x.strip()]),
+                                                ("original_coefficient_positions", list(s["positions"]), lambda t: [int(x) for x in t.strip("[]").split(",") if x.strip()]),
+                                                ("coefficient_names", list(s["cnames"]), strings), ("constant_names", list(s["knames"]), strings)):
+                        try:
+                            got_l = conv(attrs.get(field, "?"))
+                        except ValueError:
+                            got_l = None
+                        if got_l != want_l:
+                            res.fail(key, f"{be} `{label}` [{scalar}]: {field} = {attrs.get(field)}; the IR says {want_l}", loc, props=props + (("C05",) if field != "value_shape" else ()))
+                    if not re.search(rf"(?m)^{re.escape(s['alias'])}\s*=\s*{re.escape(obj)}\s*$", text):
+                        fail(f"the alias `{s['alias']}` is not bound to the class {obj}")
+                    for arr, n in (("A", "nA"), ("w", "nw"), ("c", "nc"), ("coordinate_dofs", "nx"), ("entity_local_index", "nl"), ("quadrature_permutation", "np_")):
+                        if not re.search(rf"(?m)^\s+{arr}\s*=\s*numba\.carray\(\s*_{arr}\s*,\s*\(?\s*{n}\s*,?\s*\)?\s*\)", text):
+                            fail(f"the kernel does not view argument _{arr} as an array of the extent tensor_sizes gives it ({n})")
+                            break
+
+
+def sample_kernel_text(repo, be: str, kind: str, scalar: str = "float64"):
+    """(emitted text, object name, generator Func) of the `kind` ("integral" / "expression") generator of backend `be`, interpreted on a
+    small sample IR with the kernel body replaced by MARK. Raises Raised / AnalysisError like the interpreter does."""
+    from ..npmodel import NDArr
+
+    modname = f"ffcx.codegeneration.{be}.{kind}"
+    g = repo.mod(modname).func("generator")
+    it = _interp(repo, modname, scalar)
+    rule_ = Node("QuadratureRule", points=NDArr([[0.25, 0.5]], (1, 2)), id=_PyCall(lambda: "r0"))
+    cell = _Cell("triangle", 2)
+    c0 = Node("Coefficient", name="f")
+    common = dict(entity_type="cell", needs_facet_permutations=False, coordinate_element_hash=7, coefficient_numbering={c0: 0}, coefficient_offsets={c0: 0},
+                  original_constant_offsets={}, unique_tables={}, unique_table_types={}, number_coordinate_dofs=3)
+    graph = Node("ExpressionGraph", nodes={}, out_edges={}, in_edges={})
+    if kind == "integral":
+        ir = Node("IntegralIR", enabled_coefficients=[True], part="TensorPart.full", rank=1,
+                  expression=Node("CommonExpressionIR", integral_type="cell", name="integral_s", tensor_shape=[3], shape=(),
+                                  integrand={(cell, rule_): {"factorization": graph, "modified_arguments": [], "block_contributions": {}}}, **common))
+        out = it.call_f(g, [ir, cell, {"scalar_type": scalar}])
+        obj = "integral_s_triangle"
+    else:
+        it.overrides["ExpressionGenerator"] = _PyCall(lambda ir_, backend: Node("ExpressionGenerator", generate=_PyCall(lambda: Node("Parts"))))
+        ir = Node("ExpressionIR", original_coefficient_positions=[0], coefficient_names=["f"], constant_names=[], name_from_uflfile="expression_p_0",
+                  expression=Node("CommonExpressionIR", integral_type="expression", name="expression_s", tensor_shape=[], shape=(),
+                                  integrand={("CellType.triangle", rule_): {"factorization": graph, "modified_arguments": [], "block_contributions": {}}}, **common))
+        out = it.call_f(g, [ir, {"scalar_type": scalar}])
+        obj = "expression_s"
+    if not isinstance(out, tuple) or not all(isinstance(t, str) for t in out):
+        raise AnalysisError(f"{be} {kind} generator did not return a tuple of texts")
+    return out[-1], obj, g
 
 
 def _file_scope_names(text: str, be: str) -> set[str]:
